@@ -20,6 +20,9 @@ def run(chk, tier):
         r = rint.RInt(chk, lib.facts, lib.label, ("S1", "S2", "S3"))
         r.run(lambda f: is_lib_or_gen(f, root) and f.get("cls_tpl") == "sbepp::detail::dynamic_array_ref")
     chk.floor("ARR.data rows", chk.rule_counts.get("ARR.data", 0), 200)
+    # length prefix = element count = byte count only for one-byte elements: linked validator guard
+    import gguard
+    gguard.check(chk, only_prefixes=["sbe_schema_validator::validate_encoding(t) | {}: arrays must have a single-byte type"], effects=False)
     chk.assumptions.append("std::copy / copy_backward / fill_n / copy_n behave as their summaries (trusted)")
     return chk.finish(
         explanation=("The vector-model equivalence over operation *sequences* is a property of histories and is not decided by "
